@@ -19,10 +19,13 @@ def client_error(code, op, status=None, msg=""):
 
 
 class _Body:
-    def __init__(self, data):
+    def __init__(self, data, s3=None, key=None):
         self._b = io.BytesIO(data)
+        self._s3, self._key = s3, key
 
     def read(self, n=None):
+        if self._s3 is not None:
+            self._s3._h("before", "body-read", self._key, {})       # the download of the body can fail after the request succeeded
         return self._b.read() if n is None else self._b.read(n)
 
     def close(self):
@@ -118,7 +121,7 @@ class FakeS3:
                 else:
                     data = data[a:b + 1]
             self.log.append(("get", Key, Range))
-            res = {"Body": _Body(data), "ETag": o.etag, "LastModified": o.mtime, "ContentLength": len(data)}
+            res = {"Body": _Body(data, self, Key), "ETag": o.etag, "LastModified": o.mtime, "ContentLength": len(data)}
         self._h("after", "get", Key, {})
         return res
 
